@@ -23,6 +23,8 @@ from .bootstrap import HarnessError, REPO, VERIF
 sys.dont_write_bytecode = True
 
 MAX_SIGS_PER_CHUNK = 12
+STATES_CAP_PER_CHUNK = 200_000
+STATES_CAP_TOTAL = 4_000_000
 
 
 # ----------------------------------------------------------------------------- worker
@@ -32,6 +34,7 @@ def _chunk(prop, seed, tier, lo, hi, wall):
 
     stats = Counter()
     fps = set()
+    states = set()
     nontriv = set()
     viols = {}
     samples = []
@@ -42,6 +45,8 @@ def _chunk(prop, seed, tier, lo, hi, wall):
         steps_total += res.executed
         fp = int(res.fingerprint[:16], 16)
         fps.add(fp)
+        if len(states) < STATES_CAP_PER_CHUNK:
+            states |= res.states
         if res.nontrivial:
             nontriv.add(fp)
         if res.violation is not None:
@@ -58,7 +63,7 @@ def _chunk(prop, seed, tier, lo, hi, wall):
             samples.append({"run_index": idx, "config": res.cfg, "steps": res.steps[:40],
                             "nontrivial": bool(res.nontrivial), "steps_total": len(res.steps)})
     faulthandler.cancel_dump_traceback_later()
-    return {"stats": stats, "fps": fps, "nontriv": nontriv, "viols": viols, "samples": samples,
+    return {"stats": stats, "fps": fps, "nontriv": nontriv, "states": states, "viols": viols, "samples": samples,
             "runs": hi - lo, "steps": steps_total}
 
 
@@ -165,7 +170,8 @@ def cmd_run(args):
     chunk = max(50, min(4000, runs // (workers * 8) or 1))
     bounds = [(lo, min(runs, lo + chunk)) for lo in range(0, runs, chunk)]
     wall = int(os.environ.get("VERIF_CHUNK_WALL", "900"))
-    agg = {"stats": Counter(), "fps": set(), "nontriv": set(), "viols": {}, "samples": [], "runs": 0, "steps": 0}
+    agg = {"stats": Counter(), "fps": set(), "nontriv": set(), "states": set(), "viols": {}, "samples": [],
+           "runs": 0, "steps": 0}
     ctx = multiprocessing.get_context("fork")
     with ProcessPoolExecutor(max_workers=workers, mp_context=ctx) as ex:
         futs = [ex.submit(_chunk, prop, seed, tier, lo, hi, wall) for lo, hi in bounds]
@@ -174,6 +180,8 @@ def cmd_run(args):
             agg["stats"].update(r["stats"])
             agg["fps"] |= r["fps"]
             agg["nontriv"] |= r["nontriv"]
+            if len(agg["states"]) < STATES_CAP_TOTAL:
+                agg["states"] |= r["states"]
             agg["runs"] += r["runs"]
             agg["steps"] += r["steps"]
             if len(agg["samples"]) < 3:
@@ -398,6 +406,9 @@ def write_evidence(prop, tier, seed, level, agg, runs, wall_s, det, known_seen, 
             "non-trivial = the scenario's nontrivial() predicate (>= 3 successful state-changing steps; see module)."),
         "samples": agg["samples"],
         "distinct_runs": len(agg["fps"]),
+        "distinct_object_states": len(agg["states"]),
+        "distinct_object_states_note": "distinct observations (class, name, typed entries, span / tier map / sample bytes) of "
+                                       "objects created or mutated by a step; counting stops at %d" % STATES_CAP_TOTAL,
         "steps": agg["steps"],
         "runs_per_hour": int(runs / wall_s * 3600) if wall_s > 0 else 0,
         "steps_per_s": int(agg["steps"] / wall_s) if wall_s > 0 else 0,
